@@ -596,8 +596,8 @@ def main():
         for i, H in enumerate(job["histories"]):
             tr, S, meta = run_history(H, A["vars"], f"{job.get('tag', 'l')}-{i}", job.get("cfg", {}))
             if job.get("probe", True):
-                tr["ev"].extend(continue_history(probe_battery(A, sorted(S), i % 3), S, meta, A["vars"],
-                                                 job.get("cfg", {})))
+                tr["ev"].extend(continue_history(probe_battery(A, sorted(S), i % 3) + core_probes(S, meta), S, meta,
+                                                 A["vars"], job.get("cfg", {})))
             pass
             n_calls += len(tr["ev"])
             out.write(tr, nontrivial_key=[H], outcome="trace", sample={"history": H[:8]})
